@@ -42,12 +42,24 @@ type stressCfg struct {
 	Seed  int64  `json:"seed"`
 	Calls int    `json:"calls"`
 	Menu  string `json:"menu"`
+	// Cover: how many passes every goroutine makes over the function-coverage programs (one program per
+	// function of the implementation's tables, arguments fresh per evaluation), before its other calls.
+	Cover int `json:"cover"`
+	// Post: at most this many of the concurrent coverage evaluations are repeated sequentially afterwards.
+	Post int `json:"post"`
+}
+
+type coverProg struct {
+	Name string `json:"name"`
+	Pid  int    `json:"pid"`
+	Call ccall  `json:"call"`
 }
 
 type stressMenu struct {
 	Shared []ccall  `json:"shared"`
 	Eopts  [][]eopt `json:"eopts"`
 	Ccalls []ccall  `json:"ccalls"`
+	Cover  []coverProg `json:"cover"`
 }
 
 // The pool of programs the specification does not interpret (NOpaque(k) is
@@ -245,6 +257,23 @@ func runStressChild(cfgPath, outPath string) {
 		}
 		setup.add(event{K: "ce", Out: "ok"})
 	}
+	// the function-coverage programs: compiled now, evaluated for the first time by the goroutines
+	cover := []*sharedExpr{}
+	skipped := []string{}
+	if cfg.Cover > 0 {
+		for _, cp := range menu.Cover {
+			opts := append(scaffold(nil, 0), modelCompileOpts(cp.Call.Opts, cp.Call.Eid)...)
+			e, err := fhirpath.Compile(cp.Call.Text, opts...)
+			if err != nil {
+				// the specification cannot know whether a generic form compiles; such a program is left out
+				skipped = append(skipped, cp.Name)
+				continue
+			}
+			setup.add(event{K: "cb", Call: cp.Call})
+			setup.add(event{K: "ce", Out: "ok"})
+			cover = append(cover, &sharedExpr{call: cp.Call, expr: e, opaque: true})
+		}
+	}
 	doEval := func(l *glog, s *sharedExpr, e *fhirpath.Expression, eid, r int, eo []eopt) {
 		call := map[string]any{"eid": eid, "r": r, "opts": eo}
 		begin := event{K: "eb", Call: call}
@@ -323,6 +352,16 @@ func runStressChild(cfgPath, outPath string) {
 			defer wg.Done()
 			l := logs[g]
 			<-start
+			fresh := 0
+			for pass := 0; pass < cfg.Cover; pass++ {
+				for j := range cover {
+					// pass 0: every goroutine takes the functions in the same order (all of them inside the
+					// same function at about the same time); later passes are rotated by goroutine
+					s := cover[(j+pass*g*7)%len(cover)]
+					fresh++
+					doEval(l, s, s.expr, s.call.Eid, 1+(g+j)%cfg.R, envOnly(g*1000+fresh))
+				}
+			}
 			for _, pc := range plans[g] {
 				if pc.kind == "eval" {
 					s := byEid[pc.eid]
@@ -359,8 +398,42 @@ func runStressChild(cfgPath, outPath string) {
 	close(start)
 	wg.Wait()
 
-	// ---- merge: set-up first, then (n, g)
-	events := append([]event{}, setup.events...)
+	// ---- afterwards, sequentially: a sample of the coverage evaluations once more (same program, resource, %x)
+	nsetup := len(setup.events)
+	if len(cover) > 0 {
+		type key struct{ eid, r, x int }
+		seen := []key{}
+		for g := 1; g <= cfg.G; g++ {
+			for _, ev := range logs[g].events {
+				if ev.K != "eb" {
+					continue
+				}
+				c := ev.Call.(map[string]any)
+				eid := c["eid"].(int)
+				if eid < 1500 || eid >= 2000 {
+					continue
+				}
+				seen = append(seen, key{eid, c["r"].(int), c["opts"].([]eopt)[0].Val})
+			}
+		}
+		step := 1
+		if cfg.Post > 0 && len(seen) > cfg.Post {
+			step = (len(seen) + cfg.Post - 1) / cfg.Post
+		}
+		coverBy := map[int]*sharedExpr{}
+		for _, s := range cover {
+			coverBy[s.call.Eid] = s
+		}
+		for i := 0; i < len(seen); i += step {
+			k := seen[i]
+			s := coverBy[k.eid]
+			doEval(setup, s, s.expr, k.eid, k.r, envOnly(k.x))
+		}
+	}
+	post := setup.events[nsetup:]
+
+	// ---- merge: set-up first, then (n, g), then the sequential repetition
+	events := append([]event{}, setup.events[:nsetup]...)
 	rest := []event{}
 	for g := 1; g <= cfg.G; g++ {
 		rest = append(rest, logs[g].events...)
@@ -372,16 +445,20 @@ func runStressChild(cfgPath, outPath string) {
 		return rest[i].G < rest[j].G
 	})
 	events = append(events, rest...)
-	writeTrace(outPath, cfg, events)
+	events = append(events, post...)
+	writeTrace(outPath, cfg, events, skipped)
 }
 
-func writeTrace(path string, cfg stressCfg, events []event) {
+func writeTrace(path string, cfg stressCfg, events []event, skipped []string) {
 	f, err := os.Create(path)
 	if err != nil {
 		lib.Fatal("%v", err)
 	}
 	w := bufio.NewWriter(f)
-	b, err := json.Marshal(map[string]any{"id": cfg.ID, "cfg": cfg, "events": events})
+	if skipped == nil {
+		skipped = []string{}
+	}
+	b, err := json.Marshal(map[string]any{"id": cfg.ID, "cfg": cfg, "events": events, "skipped": skipped})
 	if err != nil {
 		lib.Fatal("%v", err)
 	}
@@ -413,14 +490,15 @@ func runStress(cfgPath, outPath string) {
 		fmt.Sprintf("GOMAXPROCS=%d", cfg.Procs)}, "stresschild", cfgPath, childOut); c != nil {
 		// the run died of a runtime fatal error inside the library: the trace is that one event
 		eb, _ := json.Marshal(event{K: "race", Site: "runtime-fatal:" + c.Fatal + "|" + c.Site})
-		ob, _ := json.Marshal(map[string]any{"id": cfg.ID, "cfg": cfg, "events": []json.RawMessage{eb}, "races": 1})
+		ob, _ := json.Marshal(map[string]any{"id": cfg.ID, "cfg": cfg, "events": []json.RawMessage{eb}, "races": 1, "skipped": []string{}})
 		os.WriteFile(outPath, append(ob, '\n'), 0o644)
 		return
 	}
 	var tr struct {
-		ID     string            `json:"id"`
-		Cfg    stressCfg         `json:"cfg"`
-		Events []json.RawMessage `json:"events"`
+		ID      string            `json:"id"`
+		Cfg     stressCfg         `json:"cfg"`
+		Events  []json.RawMessage `json:"events"`
+		Skipped []string          `json:"skipped"`
 	}
 	b, err = os.ReadFile(childOut)
 	if err != nil {
@@ -454,7 +532,10 @@ func runStress(cfgPath, outPath string) {
 	if err != nil {
 		lib.Fatal("%v", err)
 	}
-	ob, _ := json.Marshal(map[string]any{"id": tr.ID, "cfg": tr.Cfg, "events": tr.Events, "races": len(keys)})
+	if tr.Skipped == nil {
+		tr.Skipped = []string{}
+	}
+	ob, _ := json.Marshal(map[string]any{"id": tr.ID, "cfg": tr.Cfg, "events": tr.Events, "races": len(keys), "skipped": tr.Skipped})
 	f.Write(ob)
 	f.Write([]byte("\n"))
 	f.Close()
